@@ -3,6 +3,11 @@
 import json, subprocess
 ALL=[f"C{i:02d}" for i in range(1,20)]
 CLAIMED={
+ "C17": dict(
+   text="The simple server against a 30-file x 4096-byte specification: every request sequence to the tier's depth over boundary-dense inode numbers, offsets, counts, data lengths and sizes (replies incl. eof flag and final contents); every crash image of every mutating history recovered with simple.Recover under two schedules (prefix containing every acknowledged request; keeps serving); all schedules within the deviation bound of 2-3 clients on one file with a brute-force linearizability check.",
+   note="Trusted: the specification written from the property text; Disk contract; scheduler shim. Workers under ulimit -v. Bounds: depth 2/3, alphabet, three concurrent harnesses, deviation bound 2/3.",
+   technique="explicit-state search over request sequences + crash-image enumeration + deviation-bounded schedule exploration of the implementation against a specification",
+   ref="DESIGN.md 4 (C17)"),
  "C16": dict(
    text="For each of the 140 Xdr-able types: a baseline and every value within 1-2 deviations (every optional/list shape, every discriminant value incl. undeclared, boundary lengths and integers) is encoded with nfstypes and with go-rpcgen's independent rfc1813 codec generated from the RFC's .x file - bytes, decoded values and re-encodings must agree; every prefix, extension and word substitution of the encodings is offered to both decoders; hand-derived golden vectors pin the primitive layout; all 22+6 procedure numbers are driven through the registration tables with a recording stub.",
    note="Trusted: go-rpcgen's rfc1813 package and xdr helper library (shared by both codecs, hence the golden vectors); the RPC message header and record marking are go-rpcgen's rfc1057 server, outside go-nfsd. Mutated decoding is skipped for the two MOUNT result types with an unbounded word array. cmd/go-nfsd/main.go's RegisterMany call is not executed (needs rpcbind); the tables it passes are.",
